@@ -60,6 +60,8 @@ def sym(E, p, kf):
             E.assume(z3.Not(z3.fpIsNaN(np._to_fp(d, np.dtype(fdt)))))       # rows containing NaN are outside the claim (numpy's own unique treats them specially)
     elif scan and op == "acc_bitwise_xor":
         data = [E.bv(f"d{q}", 64) for q in range(S)]
+    elif p.get("idt") == "bool":
+        data = [E.bool(f"d{q}") for q in range(S)]          # truth values: add.accumulate counts them (int64), row by row
     elif p.get("idt") and p.get("small"):
         data = [E.int(f"d{q}", 0, DV) for q in range(S)]      # small magnitudes of a 64-bit type: the result must keep that type (any float type loses integers)
     elif p.get("idt"):
@@ -95,7 +97,9 @@ def sym(E, p, kf):
             return dict(goal=False, got=got, case=case)
         conds += [specs.eqv(a, b) for a, b in zip(res["lens"], lens)]
         wide = data
-        if p.get("idt"):
+        if p.get("idt") == "bool":
+            wide = [z3.If(d, 1, 0) for d in data]
+        elif p.get("idt"):
             w = np.dtype(p["idt"]).itemsize * 8
             if p.get("cdtype"):
                 # dtype=: the sums are accumulated and returned in that type (here the input's own narrow type: they wrap)
@@ -204,6 +208,11 @@ def conc(case):
             exp = dict(k="tuple", items=[pat(us), common.ref_ragged([[sum(1 for x in r if x == v) for v in u] for r, u in zip(frows, us)], "int64")])
         return got, dict(k="tuple", items=[exp, same]), {"float_eq": True}
     idt = p.get("idt")
+    if idt == "bool":
+        rows = common.rows_of([bool(d) for d in data], lens)
+        ra = mk_ragged(RaggedArray, [bool(d) for d in data], lens, "bool")
+        got = outcome(lambda: (run_op(ra, p), ra))
+        return got, dict(k="tuple", items=[common.ref_ragged([_scan([int(x) for x in r], op) for r in rows], "int64"), common.ref_ragged(rows, "bool")]), {"dtype_matters": False}
     if idt and not idt.startswith("u"):
         w = np.dtype(idt).itemsize * 8
         data = [d - (1 << w) if d >= 1 << (w - 1) else d for d in data]
@@ -256,6 +265,7 @@ def jobs(tier, seed):
         for idt in ("int8", "uint8"):
             out.append(dict(base, op="cumsum", idt=idt, cdtype=idt, via=via, R=2, L=3))
     out.append(dict(base, op="acc_add", idt="uint64", small=True))
+    out.append(dict(base, op="acc_add", idt="bool", R=3, L=3))
     if not q:
         out.append(dict(base, op="cumsum", idt="uint64", R=2, L=2))      # full 64-bit range, wrapping
     return [dict(h="C07.rowwise", p=p) for p in out]
